@@ -216,6 +216,23 @@ impl CliOut {
     }
 }
 
+fn cli_limit_ms() -> u64 {
+    // three hang bounds: an uncontrolled CLI call has no controller to answer, it only has to finish
+    3 * std::env::var("VERIF_HANG_MS").ok().and_then(|s| s.parse().ok()).unwrap_or(10_000u64)
+}
+
+/// user+system CPU ticks of a process and its reaped children
+fn proc_cpu_ticks(pid: i32) -> u64 {
+    std::fs::read_to_string(format!("/proc/{}/stat", pid))
+        .ok()
+        .and_then(|s| {
+            let i = s.rfind(')')?;
+            let f: Vec<&str> = s[i + 1..].split_whitespace().collect();
+            Some((11..15).map(|k| f.get(k).and_then(|x| x.parse::<u64>().ok()).unwrap_or(0)).sum())
+        })
+        .unwrap_or(0)
+}
+
 pub fn shim_path() -> PathBuf {
     std::env::var("VERIF_SHIM")
         .map(PathBuf::from)
@@ -428,20 +445,61 @@ impl World {
     }
     pub fn cli_v(&self, args: &[String]) -> CliOut {
         let mut cmd = self.monorail_cmd(args);
-        cmd.stdin(Stdio::null());
-        match cmd.output() {
-            Ok(o) => CliOut {
-                code: o.status.code(),
-                signal: std::os::unix::process::ExitStatusExt::signal(&o.status),
-                stdout: o.stdout,
-                stderr: o.stderr,
-            },
-            Err(e) => CliOut {
-                code: None,
-                signal: None,
-                stdout: vec![],
-                stderr: format!("spawn failed: {}", e).into_bytes(),
-            },
+        cmd.stdin(Stdio::null()).stdout(Stdio::piped()).stderr(Stdio::piped());
+        use std::os::unix::process::CommandExt;
+        cmd.process_group(0);
+        let mut ch = match cmd.spawn() {
+            Ok(c) => c,
+            Err(e) => {
+                return CliOut { code: None, signal: None, stdout: vec![], stderr: format!("spawn failed: {}", e).into_bytes() };
+            }
+        };
+        // both pipes are drained by threads; an invocation that does not end within the limit (it hangs:
+        // a child it never reaps, a pipe nobody drains) is killed and reported as such instead of hanging the check
+        let (mut so, mut se) = (ch.stdout.take().unwrap(), ch.stderr.take().unwrap());
+        let t1 = std::thread::spawn(move || {
+            let mut b = Vec::new();
+            let _ = std::io::Read::read_to_end(&mut so, &mut b);
+            b
+        });
+        let t2 = std::thread::spawn(move || {
+            let mut b = Vec::new();
+            let _ = std::io::Read::read_to_end(&mut se, &mut b);
+            b
+        });
+        let limit = std::time::Duration::from_millis(cli_limit_ms());
+        let t0 = std::time::Instant::now();
+        let pid = ch.id() as i32;
+        let mut last_cpu = proc_cpu_ticks(pid);
+        let mut last_progress = t0;
+        let status = loop {
+            match ch.try_wait() {
+                Ok(Some(st)) => break Some(st),
+                Ok(None) => {}
+                Err(_) => break None,
+            }
+            // "no CPU used for the whole limit" is a hang; a busy process gets up to six limits
+            let cpu = proc_cpu_ticks(pid);
+            if cpu > last_cpu + 2 {
+                last_cpu = cpu;
+                last_progress = std::time::Instant::now();
+            }
+            if last_progress.elapsed() > limit || t0.elapsed() > limit * 6 {
+                unsafe {
+                    libc::kill(-pid, libc::SIGKILL);
+                }
+                let _ = ch.wait();
+                let _ = t1.join();
+                let _ = t2.join();
+                return CliOut { code: None, signal: Some(9), stdout: vec![], stderr: format!("the invocation {:?} did not end within {} ms without using any CPU (hang); killed", args, limit.as_millis()).into_bytes() };
+            }
+            std::thread::sleep(std::time::Duration::from_millis(2));
+        };
+        let stdout = t1.join().unwrap_or_default();
+        let stderr = t2.join().unwrap_or_default();
+        match status {
+            Some(st) => CliOut { code: st.code(), signal: std::os::unix::process::ExitStatusExt::signal(&st), stdout, stderr },
+            None => CliOut { code: None, signal: None, stdout, stderr },
         }
     }
     pub fn cli_stdin(&self, args: &[&str], input: &[u8]) -> CliOut {
